@@ -83,7 +83,7 @@ class ConstrainedProblem(Problem):
             return orig_cons
 
         # the array belongs to the caller (it may be cached): modify a copy
-        orig_cons = np.copy(orig_cons)
+        orig_cons = np.array(orig_cons, dtype=np.result_type(orig_cons, np.float32))
 
         if self.cons_offsets is not None:
             orig_cons += self.cons_offsets
